@@ -5,6 +5,20 @@ ROOT = os.path.dirname(os.path.dirname(os.path.abspath(__file__)))
 ids = [json.loads(l)["id"] for l in open(os.path.join(ROOT, "properties.jsonl"))]
 
 CLAIMED = {
+ "C03": dict(
+   text="Lean 4 theorems (Props/C03.lean over Model/Jwe.lean; AES, GCM, key wrap, RSA, ECDH are parameters): accept_implies_primitives_accepted (an accepted compact serialization made the "
+        "AEAD primitive accept exactly the received IV / ciphertext / tag under AAD = the RECEIVED protected segment and the CEK unwrapped from the received encrypted key), "
+        "roundtrip_compact(_zip), accepted_altered_component_is_a_forgery (reduction of tamper rejection to the unforgeability of the primitive); for AES_CBC_HMAC_SHA2, which the "
+        "library composes itself (HMAC native in Lean): cbc_accept_implies_tag_eq, cbc_wrong_tag_rejected (AES is never reached), cbc_tag_length_enforced (shortened / lengthened tag), "
+        "mac_input_injective + al64_injective_length + cbc_tamper_reduces_to_mac_collision (an accepted altered aad / iv / ciphertext is an HMAC collision on DIFFERENT inputs); "
+        "fixedInfo_injective (Concat KDF other-info). Correspondence: CBC-HS tag and Concat KDF (other-info and derived key, SHA-256 native) against the real methods; the compact "
+        "deserializer's structure against the model fed with the primitive verdicts of an independent RFC 7516 implementation, on valid and altered tokens for all 14 algs. Oracle: full "
+        "14 × 6 × 2 round-trip matrix in three directions (authlib↔authlib, authlib→independent, independent→authlib) over 5 curves, general JSON serialization with 1..3 recipients and AAD, "
+        "every component × bit flips / truncation / lengthening / splicing, header rewrites, non-recipient and wrong-size keys, a deterministic RSA1_5 multi-recipient witness.",
+   note="Trusted: Lean kernel; the `cryptography` primitives (both sides); harness/jweref.py as the independent implementation; JSON header parsing abstract in the model. The JSON serialization "
+        "is covered by oracle and interoperability, not by a Lean model. ECDH-1PU drafts and C20P/XC20P not exercised. Observation: in dir / ECDH-ES the encrypted-key segment is ignored.",
+   technique="Lean 4 proof (structural theorems + reduction to primitive unforgeability / MAC collision) + differential correspondence with an independent implementation + tamper oracle",
+   design="§4 C03"),
  "C20": dict(
    text="Lean 4 theorems (Props/C20.lean) over the regenerated error layer (Generated/Errors.lean: every OAuth2Error subclass with code / status / class-level description, every "
         "literal description passed when the library raises one, every site where a description is computed, the invalid_error_characters ranges, the default JSON headers — "
